@@ -121,21 +121,39 @@ Qed.
 Print Assumptions C16_aliased_holds.
 
 (* construction routes: the schema as str / tuple / list / Schema objects / attribute access gives the same
-   identity; objects with the same name, chain, alias and temporal clause are equal with equal keys *)
+   identity; tables with the same name, chain, alias, temporal clause (and Query class) are equal with equal keys *)
 Theorem C16_route_independent :
   (forall s, ev_route (RStr s) = ev_route (RSeq [s]))
   /\ (forall n0 rest, ev_route (RSeq (n0 :: rest)) = ev_route (RObj (prog_chain (PNew false n0) rest)))
   /\ (forall n0 rest s, ev_route (RSeq (n0 :: rest)) = Ok (Some s) -> chain s = rev (n0 :: rest))
   /\ (forall d s, ev_route (RAttr (PAttr (PNew true d) s)) = Ok (Some (SSub s false (SRoot d true))))
   /\ ev_route (RSeq []) = Err "IndexError"
-  /\ (forall a b, same_identity a b ->
+  /\ (forall a b, same_identity a b -> tqcls a = tqcls b ->
         ieq x_cfg (ITable a) (ITable b) = true /\ ikey x_cfg (ITable a) = ikey x_cfg (ITable b)).
 Proof.
   split; [exact route_str_seq|]. split; [exact route_seq_obj|]. split; [exact route_seq_chain|].
   split; [intros d s; exact (proj1 (route_attr d s))|]. split; [reflexivity|].
-  apply route_independent; vm_compute; reflexivity.
+  apply route_independent_q; vm_compute; reflexivity.
 Qed.
 Print Assumptions C16_route_independent.
+
+(* the Query class a table is bound to (Table(.., query_cls=X), X.Table(..)): either neither == nor the hash looks at
+   it, and then tables of one identity are equal with equal keys whatever their Query classes; or it is looked at,
+   and then coherently (whatever reaches the hash is compared).  On the current code: the first. *)
+Theorem C16_query_cls_verdict :
+  if tmem TQcls (c_teq x_cfg) || tmem TQcls (c_tkey x_cfg)
+  then key_coherent x_cfg = true
+  else forall a b, same_identity a b ->
+         ieq x_cfg (ITable a) (ITable b) = true /\ ikey x_cfg (ITable a) = ikey x_cfg (ITable b).
+Proof.
+  assert (E : tmem TQcls (c_teq x_cfg) || tmem TQcls (c_tkey x_cfg) = false
+              \/ (tmem TQcls (c_teq x_cfg) || tmem TQcls (c_tkey x_cfg) = true /\ key_coherent x_cfg = true)).
+  { first [ left; vm_compute; reflexivity | right; split; vm_compute; reflexivity ]. }
+  destruct E as [E | [E K]]; rewrite E; [|exact K].
+  apply orb_false_iff in E. destruct E as [E1 E2].
+  apply route_independent; [vm_compute; reflexivity | vm_compute; reflexivity | exact E1 | exact E2].
+Qed.
+Print Assumptions C16_query_cls_verdict.
 
 (* ---- the parts that were refuted before the repairs 45f675c / 72f33c4 ------------------------------ *)
 
@@ -177,8 +195,8 @@ Print Assumptions C16_holds.
 (* before 45f675c: Table('a') == Table('a').for_(crit) although their hash keys differ; the list finds it, a set
    does not; before 72f33c4 a schema in a set raises TypeError.  On the current lists the same pair is unequal. *)
 Example C16_before_fix_witness :
-  let a := ITable {| tname := "a"; tschema := None; talias := None; tfor := None; tportion := None |} in
-  let b := ITable {| tname := "a"; tschema := None; talias := None; tfor := Some "SYSTEM_TIME AS OF '2020-01-01'"; tportion := None |} in
+  let a := ITable {| tname := "a"; tschema := None; talias := None; tfor := None; tportion := None; tqcls := "Query" |} in
+  let b := ITable {| tname := "a"; tschema := None; talias := None; tfor := Some "SYSTEM_TIME AS OF '2020-01-01'"; tportion := None; tqcls := "Query" |} in
   ieq cfg_before_fix a b = true /\ ine cfg_before_fix a b = false /\ ikey cfg_before_fix a <> ikey cfg_before_fix b
   /\ in_list cfg_before_fix a [b] = true
   /\ in_set (fun k => Z.of_nat (List.length (filter (fun v => negb (val_eqb v (VOpt None))) (snd k)))) cfg_before_fix a [b] = Ok false
@@ -200,28 +218,28 @@ Print Assumptions C16_before_fix_refuted.
    an alias, a schema level or a name apart is unequal *)
 Example C16_examples :
   ieq x_cfg (ISchema (SRoot "d" true)) (ISchema (SRoot "d" false)) = true
-  /\ (match ev_tprog {| p_name := "t"; p_route := RAttr (PAttr (PNew true "d") "s"); p_alias := None; p_ops := [OpAs "x"] |},
-            ev_tprog {| p_name := "t"; p_route := RSeq ["d"; "s"]; p_alias := Some "x"; p_ops := [] |},
-            ev_tprog {| p_name := "t"; p_route := RObj (PSub false "s" (PNew false "d")); p_alias := None; p_ops := [OpAs "y"; OpAs "x"] |} with
+  /\ (match ev_tprog {| p_name := "t"; p_route := RAttr (PAttr (PNew true "d") "s"); p_alias := None; p_qcls := "Query"; p_ops := [OpAs "x"] |},
+            ev_tprog {| p_name := "t"; p_route := RSeq ["d"; "s"]; p_alias := Some "x"; p_qcls := "Query"; p_ops := [] |},
+            ev_tprog {| p_name := "t"; p_route := RObj (PSub false "s" (PNew false "d")); p_alias := None; p_qcls := "Query"; p_ops := [OpAs "y"; OpAs "x"] |} with
       | Ok a, Ok b, Ok d => ieq x_cfg (ITable a) (ITable b) && ieq x_cfg (ITable b) (ITable d)
                             && key_eqb (ikey x_cfg (ITable a)) (ikey x_cfg (ITable d))
       | _, _, _ => false end) = true
-  /\ (match ev_tprog {| p_name := "t"; p_route := RSeq ["d"; "s"]; p_alias := None; p_ops := [] |},
-            ev_tprog {| p_name := "t"; p_route := RSeq ["e"; "s"]; p_alias := None; p_ops := [] |},
-            ev_tprog {| p_name := "t"; p_route := RSeq ["d"; "s"]; p_alias := Some "x"; p_ops := [] |} with
+  /\ (match ev_tprog {| p_name := "t"; p_route := RSeq ["d"; "s"]; p_alias := None; p_qcls := "Query"; p_ops := [] |},
+            ev_tprog {| p_name := "t"; p_route := RSeq ["e"; "s"]; p_alias := None; p_qcls := "Query"; p_ops := [] |},
+            ev_tprog {| p_name := "t"; p_route := RSeq ["d"; "s"]; p_alias := Some "x"; p_qcls := "Query"; p_ops := [] |} with
       | Ok a, Ok b, Ok d => ieq x_cfg (ITable a) (ITable b) || ieq x_cfg (ITable a) (ITable d)
       | _, _, _ => true end) = false
-  /\ ev_tprog {| p_name := "t"; p_route := RSeq []; p_alias := None; p_ops := [] |} = Err "IndexError"
-  /\ ev_tprog {| p_name := "t"; p_route := RNone; p_alias := None; p_ops := [OpFor "x"; OpPortion "y"] |} = Err "AttributeError".
+  /\ ev_tprog {| p_name := "t"; p_route := RSeq []; p_alias := None; p_qcls := "Query"; p_ops := [] |} = Err "IndexError"
+  /\ ev_tprog {| p_name := "t"; p_route := RNone; p_alias := None; p_qcls := "Query"; p_ops := [OpFor "x"; OpPortion "y"] |} = Err "AttributeError".
 Proof. vm_compute. repeat split. Qed.
 Print Assumptions C16_examples.
 
 (* the fragment is inhabited by non-trivial objects: an aliased table in a two-level schema, a WITH query *)
 Example C16_fragment_nonvacuous :
   frag (ITable {| tname := "t"; tschema := Some (SSub "s" false (SRoot "d" true)); talias := Some "x";
-                  tfor := None; tportion := None |}) = true
+                  tfor := None; tportion := None; tqcls := "Query" |}) = true
   /\ frag (IAliased {| aname := "n"; abody := Some "SELECT 1" |}) = true
-  /\ frag (ITable {| tname := "t"; tschema := None; talias := None; tfor := Some "x"; tportion := None |}) = false
+  /\ frag (ITable {| tname := "t"; tschema := None; talias := None; tfor := Some "x"; tportion := None; tqcls := "Query" |}) = false
   /\ frag (ISchema (SRoot "d" false)) = false.
 Proof. vm_compute. repeat split. Qed.
 Print Assumptions C16_fragment_nonvacuous.
